@@ -9,8 +9,8 @@
 3. search (no model): the full statement set (region_cast, unknown regions, int_to_ref /
    ref_to_int, does_not_have_tag, boolean reference constraints, forget / project,
    division ...) over the base domains intervals, flat-boolean x intervals, zones and
-   sign x constant, and through the variable-naming ghost manager, every parameter
-   setting, checked by the oracle; crashes of the implementation are violations too."""
+   sign x constant, every parameter setting, checked by the oracle; crashes of the
+   implementation are violations too."""
 import os, re, sys, subprocess, collections
 _V = os.path.dirname(os.path.dirname(os.path.abspath(__file__)))
 for _p in ("bin", "gen", "checks"):
@@ -44,7 +44,7 @@ MAX_SHRINK = 10
 
 
 def sizes(tier):
-    return (2500, 700) if tier == "quick" else (30000, 8000)
+    return (4000, 1000) if tier == "quick" else (40000, 10000)
 
 
 def run_cases(exe, mode, lines, path, timeout=900):
